@@ -149,7 +149,7 @@ def check_C18(ctx):
         ctx.rule("NULL-GUARD").floor("nonnull_api_sites[%s]" % cfg, 1 if cfg == "K3" else 2, cfg)
     for cfg, F in ctx.configs(["K1", "K2"]):
         mem.rule_setlen_cap(ctx, cfg, F)
-        ctx.rule("SETLEN-CAP").floor("set_len_sites[%s]" % cfg, 4, cfg)
+        ctx.rule("SETLEN-CAP").floor("set_len_sites[%s]" % cfg, 1, cfg)
         with fd.domain("mem"):
             model = fd.build_model(F)
             fd.rule_fd_path(ctx, cfg, F, model, "ALLOC-PAIR", "every malloc/mmap result is, on every normal path, released exactly once: freed/unmapped, "
@@ -244,6 +244,8 @@ def check_C12(ctx):
         ctx.rule("TRUNC-ERR").floor("followup_reads[%s]" % cfg, 1, cfg)
         recv.rule_closed_origin(ctx, cfg, F)
         ctx.rule("CLOSED-ORIGIN").floor("closed_constructions[%s]" % cfg, 1, cfg)
+        recv.rule_errno_fresh(ctx, cfg, F)
+        ctx.rule("ERRNO-FRESH").floor("read_sites[%s]" % cfg, 2, cfg)
         send.rule_frag_route(ctx, cfg, F)
         send.rule_peer_closed(ctx, cfg, F)
         fd.rule_cloexec(ctx, cfg, F, None)
@@ -310,6 +312,8 @@ def check_C13(ctx):
         ipcl.rule_frag_contig(ctx, cfg, F)
         recv.rule_trunc_err(ctx, cfg, F)
         ipcl.rule_size_agree(ctx, cfg, F)
+        ipcl.rule_recv_cap_const(ctx, cfg, F)
+        ctx.rule("RECV-CAP-CONST").floor("capacity_sites[%s]" % cfg, 1, cfg)
         ipcl.rule_reasm_contig(ctx, cfg, F)
     ctx.assume("the receiver always offers full-size buffers, so smaller fragments fit (C01 not-decided clause)")
 
@@ -448,6 +452,8 @@ def check_C01(ctx):
         recv.rule_trunc_err(ctx, cfg, F)
         ipcl.rule_size_agree(ctx, cfg, F)
         ctx.rule("SIZE-AGREE").floor("single_packet_sites[%s]" % cfg, 1, cfg)
+        ipcl.rule_recv_cap_const(ctx, cfg, F)
+        ctx.rule("RECV-CAP-CONST").floor("capacity_sites[%s]" % cfg, 1, cfg)
         recv.rule_timeout_arm(ctx, cfg, F)
         ctx.rule("TIMEOUT-ARM").floor("poll_sites[%s]" % cfg, 1, cfg)
     for cfg, F in ctx.configs(["K1", "K3"]):
